@@ -71,6 +71,9 @@ def gen_type(r, depth=0, rich=True):
     if k < 0.5:
         return "List[%s]" % gen_type(r, depth + 1)
     if k < 0.65:
+        if r.random() < 0.2:
+            # numbers as members (a negative one is a unary minus in the syntax tree of the type, not a constant)
+            return "Literal[%s]" % ", ".join(repr(x) for x in r.choice([[-1, 0, 1], [1, 2, 3], [0, 1], [-0.5, 0.5], [2, -2]]))
         return "Literal[%s]" % ", ".join(repr(x) for x in r.sample(WORDS + ["read only", "read write", "two words"], r.randint(1, 3)))
     if k < 0.78:
         return "Union[%s]" % ", ".join(gen_type(r, depth + 1) for _ in range(2))
@@ -81,7 +84,8 @@ def gen_type(r, depth=0, rich=True):
 
 INTS = [0, 1, -1, 5, -17, 100, 7, 42, -2]
 FLOATS = [0.0, 0.5, -1.5, 1e-07, 3.0, 100.25, 1e20, 2.5e-05, -0.001]
-STRS = ["mnist", "~/data", "x", "a b", "word", "two words", "under_score", "UPPER", "8080", "1.0", "-3", "True", ",", "r"]
+STRS = ["mnist", "~/data", "x", "a b", "word", "two words", "under_score", "UPPER", "8080", "1.0", "-3", "True", ",", "r",
+        ", ", " -"]  # (the last two: white space at an end of the value - a separator, a bullet)
 CODES = ["```np.zeros(3)```", "```(1, 2)```", "```[1, 2]```", "```{'a': 1}```", "```foo(1)```", "```x```", "```list(range(3)).copy()```", "```x[0].y```"]
 
 
